@@ -22,7 +22,7 @@ def plan(tier):
         t.append({'kind': 'start', 'start': s})
         c = history.start(s)
         for op in history.menu(c, 'full'):
-            t.append({'kind': 'sub', 'start': s, 'prefix': [op], 'depth': depth(tier), 'level': 'full' if tier == 'quick' else 'lite'})
+            t.append({'kind': 'sub', 'start': s, 'prefix': [op], 'depth': depth(tier), 'level': 'full' if tier == 'quick' else ['full', 'lite', 'nocomp']})
     return t
 
 
@@ -40,7 +40,7 @@ def describe(tier):
         'directions complete and ordered, evaluate_full_circuit/dfs complete, blocks name existing gates; copy monitor: '
         'copy == original, blocks equal, mutating either side leaves the other unchanged.',
         'bounds': {'quick': 'depth 2 from each start state, full menu',
-                   'thorough': 'depth 3; second and third step use one naming option for compositions (lite menu)'}[tier],
+                   'thorough': 'depth 3: step 1 full menu, step 2 one naming option for compositions, step 3 all non-composition calls'}[tier],
         'exhaustive': True,
         'assumptions': ['state canonicalisation reads the raw users index (finer than public observation, never coarser)'],
     }
